@@ -3,6 +3,7 @@ from hypothesis import strategies as st
 
 from pbt import canon, refcodec, spec_table, strategies as S, wire
 from pbt.lib import body, call, decode, frame, header, heartbeat, method_class
+from pbt.props import c16
 from pbt.runner import Component, HarnessError, Violation, lib_site
 
 PROPERTY_ID = 'C05'
@@ -313,6 +314,13 @@ COMPONENTS = [
               describe='every identifier-like literal harvested from the tree under test '
                        'as a table key next to a value of every type tag, and as a '
                        'short-string value (auto-dictionary)'),
+    Component('first-use-threads', c16.check_saturation,
+              cases=c16.first_use_sweep(['decode-tables', 'decode-decimals',
+                                         'decode-frames', 'decode-after-refusal']),
+              distinct_by_construction=True,
+              describe='well-formed tables, decimals and frames decoded as the very first '
+                       'calls of a pristine process by 2-3 threads, one of them 0..59 '
+                       'traced lines ahead; results vs a fresh interpreter'),
     Component('chains', check_any, cases=chain_sweep,
               nontrivial=lambda c: True, exhaustive=True,
               classes=lambda c: ['where=' + c.get('kind', 'value')],
